@@ -27,6 +27,23 @@ impl<T: Clone> Clone for SS<T> {
     }
 }
 
+thread_local! {
+    static WEAK: std::cell::Cell<bool> = const { std::cell::Cell::new(false) };
+}
+
+/// True while the *weakened* model (reference model + the recorded, still unfixed defect) is being
+/// evaluated. Families consult it inside `m_step`.
+pub fn weak() -> bool {
+    WEAK.with(|w| w.get())
+}
+
+pub fn with_weak<T>(on: bool, f: impl FnOnce() -> T) -> T {
+    let old = WEAK.with(|w| w.replace(on));
+    let r = f();
+    WEAK.with(|w| w.set(old));
+    r
+}
+
 /// Result of one model micro-transition of an operation.
 #[derive(Clone, Debug)]
 pub enum MStep<M, R> {
@@ -72,6 +89,18 @@ pub trait Family: 'static + Sized {
     /// destructor runs): returns (culprit, description) of a violation.
     fn monitor(_p: &Program<Self>, _rec: &ExecRecord<Self::Res>) -> Option<(String, String)> {
         None
+    }
+    /// Name of the *known finding* that this family's weakened model encodes (see `weak()`), if any.
+    /// An execution the normal model rejects but the weakened model accepts is attributed to that
+    /// finding; one that both reject is a new violation.
+    fn weakening(_cfg: &Self::Cfg) -> Option<&'static str> {
+        None
+    }
+    /// Called on the model state when thread `t` finishes.
+    fn m_on_finish(_m: &mut Self::M, _t: usize) {}
+    /// Weakened model only: thread `t` is held blocked by the modelled defect.
+    fn m_forced_blocked(_m: &Self::M, _t: usize) -> bool {
+        false
     }
     fn m_init(cfg: &Self::Cfg, nthreads: usize) -> Self::M;
     /// All micro-transitions thread `t` can take for `op` in `phase`. Empty = blocked.
@@ -617,11 +646,17 @@ fn g_steps_raw<F: Family>(p: &Program<F>, s: &GState<F>, t: usize, strict: bool)
     if s.panic.is_some() || s.th[t].st != St::Active {
         return out;
     }
+    if weak() && F::m_forced_blocked(&s.m, t) && (s.th[t].pc as usize) < p.threads[t].len() {
+        // held blocked by the modelled defect (takes effect at the thread's next scheduling point,
+        // i.e. before its next operation; a thread with nothing left to do still finishes)
+        return out;
+    }
     let pc = s.th[t].pc as usize;
     let ops = &p.threads[t];
     if pc == ops.len() {
         let mut n = s.clone();
         n.th[t].st = St::Finished;
+        F::m_on_finish(&mut n.m, t);
         out.push((false, Label::Finish, n));
         return out;
     }
